@@ -144,6 +144,13 @@ func emitMap(sb *strings.Builder, n *node, indent int) error {
 		c := n.m[k]
 
 		switch {
+		case c.scalar != nil && strings.Contains(*c.scalar, "\n"):
+			// a value of several lines: a literal block scalar without the final line break (the value as it is)
+			fmt.Fprintf(sb, "%s%s: |-\n", pad, k)
+
+			for _, line := range strings.Split(*c.scalar, "\n") {
+				fmt.Fprintf(sb, "%s  %s\n", pad, line)
+			}
 		case c.scalar != nil:
 			fmt.Fprintf(sb, "%s%s: %s\n", pad, k, *c.scalar)
 		case c.isList:
